@@ -1234,7 +1234,7 @@ def _line_cb(code, line):
                 if d['thread'] == t.name and code.co_qualname.startswith(d['qual']):
                     d['seen'] = d.get('seen', 0) + 1
                     if d['seen'] == d['nth']:
-                        s.delays_fired.append((t.name, key, d['d']))
+                        s.delays_fired.append((t.name, key, d['d'], s.now))
                         s.sleep(d['d'])
         s.yield_point(key)
 
